@@ -9,7 +9,22 @@ Inductive case :=
    batchLoader for the same request (None = the store process died) *)
 | CFetch (g : cfg) (frs : list frac) (ids : list idsrc) (impl : sres) (lens : option (list N))
 (* real docsStream.calcChunkSize on documents of the given sizes (0 = not found); None = it panicked *)
-| CCalc (g : cfg) (sizes : list N) (prev : N) (impl : option N).
+| CCalc (g : cfg) (sizes : list N) (prev : N) (impl : option N)
+(* ---- unit level, position layer ---- *)
+(* seq.PackDocPos(b, off) (None = it panicked) and DocPos.Unpack of its result *)
+| CPack (b off : N) (impl : option N) (ub uo : N)
+(* DocPos(p).Unpack() *)
+| CUnpack (p : N) (ib io : N)
+(* seq.GroupDocsOffsets(ps): (block, offsets, index) per group *)
+| CGroup (ps : list N) (impl : list (N * list N * list N))
+(* processor.IndexFetch over a fetch index serving positions ps, the block offsets table tbl and a real
+   disk.DocsReader on a file holding, at file offset foffs[k], the block of documents blocks[k];
+   None = error or panic, inner None = nil entry *)
+| CIndexFetch (blocks : list (list (list N))) (foffs tbl ps : list N) (impl : option (list (option (list N))))
+(* activeFetchIndex.GetDocPos with a snapshot of k block offsets and the given DocsPositions *)
+| CActivePos (k : N) (stored : list (id * N)) (req : list id) (impl : list N)
+(* sealedFetchIndex.getDocPosByLIDs over position blocks of ipb entries holding ptab; None = panic *)
+| CSealedPos (g : cfg) (ptab lids : list N) (impl : option (list N)).
 
 Definition body_eqb (a b : body) : bool := (fst a =? fst b) && (snd a =? snd b).
 Definition sent_eqb (a b : id * option body) : bool :=
@@ -24,6 +39,10 @@ Definition sres_eqb (a b : sres) : bool :=
 Definition docs_of_sizes (sizes : list N) : list (option body) :=
   map (fun l => if l =? 0 then None else Some (1, l)) sizes.
 
+Definition group_eqb (a b : N * list N * list N) : bool :=
+  let '(b1, o1, i1) := a in let '(b2, o2, i2) := b in
+  (b1 =? b2) && list_eqb N.eqb o1 o2 && list_eqb N.eqb i1 i2.
+
 (* model output = implementation output *)
 Definition case_agrees (c : case) : bool :=
   match c with
@@ -37,6 +56,27 @@ Definition case_agrees (c : case) : bool :=
          end
   | CCalc g sizes prev impl =>
       option_eqb N.eqb (Some (calc_chunk g (docs_of_sizes sizes) prev)) impl
+  | CPack b off impl ub uo =>
+      match pack_pos b off, impl with
+      | Ok p, Some q => (p =? q) && pair_eqb N.eqb N.eqb (unpack_pos p) (ub, uo)
+      | Panic, None => true
+      | _, _ => false
+      end
+  | CUnpack p ib io => pair_eqb N.eqb N.eqb (unpack_pos p) (ib, io)
+  | CGroup ps impl => list_eqb group_eqb (group_offsets ps) impl
+  | CIndexFetch blocks foffs tbl ps impl =>
+      match index_fetch tbl (read_bytes (combine foffs (map encode_block blocks))) ps, impl with
+      | Ok r, Some q => list_eqb (option_eqb (list_eqb N.eqb)) r q
+      | Panic, None => true
+      | _, _ => false
+      end
+  | CActivePos k stored req impl => list_eqb N.eqb (map (active_pos k (build_apos stored)) req) impl
+  | CSealedPos g ptab lids impl =>
+      match pos_by_lids g (build_ptab ptab 0 (PositiveMap.empty _)) (N.of_nat (length ptab)) None lids, impl with
+      | Ok r, Some q => list_eqb N.eqb r q
+      | Panic, None => true
+      | _, _ => false
+      end
   end.
 
 (* ---- the property itself, evaluated on the implementation's output, independent of the model's algorithm:
@@ -74,6 +114,40 @@ Fixpoint entries_ok (m : stored) (cnt : PositiveMap.t N) (ids : list idsrc) (sen
   | _, _ => false
   end.
 
+(* a position decoded by plain arithmetic: p = block * 2^30 + offset + 1 with offset < 2^30 *)
+Definition pos_limit : N := 4611686018427387904.                (* 2^62 *)
+Definition dec_ok (p b o : N) : bool := (b * 1073741824 + o + 1 =? p) && (o <? 1073741824).
+Fixpoint nodupb (l : list N) : bool :=
+  match l with [] => true | x :: r => negb (existsb (N.eqb x) r) && nodupb r end.
+Fixpoint index_of (x : N) (l : list N) (i : nat) : option nat :=
+  match l with [] => None | y :: r => if y =? x then Some i else index_of x r (S i) end.
+(* the document whose length prefix starts at in-block offset o *)
+Fixpoint doc_at (docs : list (list N)) (cur o : N) : option (list N) :=
+  match docs with
+  | [] => None
+  | d :: r => if cur =? o then Some d else doc_at r (cur + 4 + N.of_nat (length d)) o
+  end.
+(* what IndexFetch must deliver for position p: Some None = nil, Some (Some d) = document, None = p points nowhere *)
+Definition want_doc (blocks : list (list (list N))) (foffs tbl : list N) (p : N) : option (option (list N)) :=
+  if p =? max64 then Some None
+  else if (1 <=? p) && (p <=? pos_limit)
+       then let b := (p - 1) / 1073741824 in let o := (p - 1) mod 1073741824 in
+            match nth_error tbl (N.to_nat b) with
+            | Some fo => match index_of fo foffs 0 with
+                         | Some k => match doc_at (nth k blocks []) 0 o with
+                                     | Some d => Some (Some d) | None => None end
+                         | None => None
+                         end
+            | None => None
+            end
+       else None.
+Fixpoint want_all {A} (l : list (option A)) : option (list A) :=
+  match l with
+  | [] => Some []
+  | Some x :: r => match want_all r with Some t => Some (x :: t) | None => None end
+  | None :: _ => None
+  end.
+
 Definition case_spec_ok (c : case) : bool :=
   match c with
   | CFetch g frs ids impl lens =>
@@ -87,6 +161,49 @@ Definition case_spec_ok (c : case) : bool :=
          end
   | CCalc g sizes prev impl =>
       match impl with Some k => (1 <=? k) || (prev =? 0) | None => false end
+  | CPack b off impl ub uo =>
+      if off <=? max_doc_offset
+      then match impl with
+           | Some p => (ub =? b) && (uo =? off) && negb (p =? 0) && negb (p =? max64)
+           | None => false
+           end
+      else match impl with None => true | Some _ => false end
+  | CUnpack p ib io => if (1 <=? p) && (p <=? pos_limit) then dec_ok p ib io else true
+  | CGroup ps impl =>
+      let idxs := flat_map (fun g : N * list N * list N => snd g) impl in
+      nodupb (map (fun g : N * list N * list N => fst (fst g)) impl)
+      && nodupb idxs
+      && (N.of_nat (length idxs) =? N.of_nat (length (filter (fun p => negb (p =? max64)) ps)))
+      && forallb (fun g : N * list N * list N =>
+                    let '(b, offs, idx) := g in
+                    (N.of_nat (length offs) =? N.of_nat (length idx))
+                    && forallb (fun oi : N * N =>
+                                  match nth_error ps (N.to_nat (snd oi)) with
+                                  | Some p => negb (p =? max64) && dec_ok p b (fst oi)
+                                  | None => false
+                                  end) (combine offs idx)) impl
+  | CIndexFetch blocks foffs tbl ps impl =>
+      match want_all (map (want_doc blocks foffs tbl) ps) with
+      | Some w => match impl with
+                  | Some r => list_eqb (option_eqb (list_eqb N.eqb)) w r
+                  | None => false
+                  end
+      | None => true                      (* a position that points nowhere: nothing is demanded *)
+      end
+  | CActivePos k stored req impl =>
+      list_eqb N.eqb
+        (map (fun x => match find (fun e : id * N => id_eqb (fst e) x) stored with
+                       | None => max64
+                       | Some (_, p) => if p =? max64 then max64
+                                        else if k * 1073741824 + 1 <=? p then max64 else p
+                       end) req) impl
+  | CSealedPos g ptab lids impl =>
+      if (1 <=? ipb g) && forallb (fun l => l <? N.of_nat (length ptab)) lids
+      then match impl with
+           | Some r => list_eqb N.eqb (map (fun l => if l =? 0 then max64 else nth (N.to_nat l) ptab 0) lids) r
+           | None => false
+           end
+      else true
   end.
 
 Definition diff_indices (l : list case) : list nat := bad_indices (fun c => negb (case_agrees c)) l.
